@@ -138,7 +138,10 @@ fn get_superficial_loss_info(
             }
         };
 
-    // This will need to be per affiliate until stock split TXs are global
+    // This will need to be per affiliate until stock split TXs are global.
+    // For the txs after the sale, this is the cumulative pre-to-post factor of the
+    // splits passed so far: share counts are divided by it (dividing by e.g. 1.5
+    // is exact where multiplying by a rounded 1/1.5 is not).
     let mut af_split_adjustments = HashMap::<&Affiliate, PosDecimal>::new();
 
     let mut all_aff_spladj_shares_at_end_of_period =
@@ -199,7 +202,7 @@ fn get_superficial_loss_info(
             TxActionSpecifics::Buy(buy) => {
                 let after_tx_buy_shares = GreaterEqualZeroDecimal::from(buy.shares);
                 let after_tx_buy_spladj_shares =
-                    after_tx_buy_shares * split_adjustment.into();
+                    after_tx_buy_shares.div(split_adjustment);
 
                 all_aff_spladj_shares_at_end_of_period += after_tx_buy_spladj_shares;
                 let old_shares_eop = active_affiliate_spladj_shares_at_eop
@@ -219,7 +222,7 @@ fn get_superficial_loss_info(
                 let after_tx_sell_shares =
                     GreaterEqualZeroDecimal::from(sell.shares);
                 let after_tx_spladj_sell_shares =
-                    after_tx_sell_shares * split_adjustment.into();
+                    after_tx_sell_shares.div(split_adjustment);
 
                 all_aff_spladj_shares_at_end_of_period = GreaterEqualZeroDecimal::try_from(
                     *all_aff_spladj_shares_at_end_of_period - *after_tx_spladj_sell_shares
@@ -246,7 +249,7 @@ fn get_superficial_loss_info(
             TxActionSpecifics::Split(split) => {
                 // Adjustment goes backwards in time for txs after the sale.
                 let new_split_adjustment =
-                    split_adjustment / split.ratio.pre_to_post_factor();
+                    split_adjustment * split.ratio.pre_to_post_factor();
                 af_split_adjustments.insert(after_tx_affil, new_split_adjustment);
             }
             // These don't change the share quantity, so they can be ignored
